@@ -313,7 +313,9 @@ def run(tier):
                     # the errnos the operation's own source special-cases (errno-specific arms such as
                     # EAGAIN => Ok(None), EINPROGRESS, EINTR => retry) fail every call of the operation
                     names += [n for n in special if n not in names]
-                    if tier != "quick":
+                    if tier != "quick" and s in boundary:
+                        names += [n for n in COMMON if n not in names]   # argument-variation scenarios: the common set only
+                    if tier != "quick" and s not in boundary:
                         names += [n for n in COMMON + BRANCHY if n not in names]
                         # ... and every other errno number the kernel defines (an errno-specific arm need
                         # not be spelled Errno::E..)
